@@ -246,14 +246,16 @@ def plugin_api_cpp():
                        funcs_cpp=["extern const TypeLayout *ROOT_LAYOUT;", "int32_t load_plugin(ReprCStr name, MaybeUninit<PluginInnerArcBox> *ok_out);"])
 
 
-def random_cpp(seed, fnptr=False, wrapped=False):
+def random_cpp(seed, fnptr=False, wrapped=False, layout=False, plain=False):
     import random
-    m = emit.random_model(seed, fnptr=fnptr, wrapped=wrapped)
+    m = emit.random_model(seed, fnptr=fnptr, wrapped=wrapped, plain=plain)
     rng = random.Random(seed ^ 0x5eed)
     # UserThing and Settings first: later user declarations and functions mention them
     user = [(0, USER_DECLS_CPP[0]), (0, USER_DECLS_CPP[2])]
     user += [(rng.randint(0, 12), u) for u in rng.sample(USER_DECLS_CPP[1:2] + USER_DECLS_CPP[3:], rng.randint(2, len(USER_DECLS_CPP) - 2))]
     funcs = list(rng.sample(USER_FUNCS_CPP, rng.randint(1, 3)))
+    if layout:
+        funcs.append(rng.choice(["extern const TypeLayout *ROOT_LAYOUT;", "const TypeLayout *get_root_layout();"]))
     # exported functions that mention the roots (what makes cbindgen emit them at all)
     for i, (kind, name, inst, ctx) in enumerate(m.roots):
         funcs.append("void use_root_%d(const %s *obj);" % (i, alias_name(name, inst, ctx)))
